@@ -210,8 +210,11 @@ def build_harness(name, flags=(), defines=(), sanitize=True, opt='-O1', libs=('-
             return False, None, (out + err)[-4000:]
         os.rename(exe + '.tmp', exe)
         # keep the cache small: drop other builds of the same harness
+        # (only stale ones: a concurrent run against another CELLO_REPO may be using a different key right now)
         for old in glob.glob(os.path.join(CACHE, 'h', f'{name}{tag}-*')):
-            if old != d: shutil.rmtree(old, ignore_errors=True)
+            try:
+                if old != d and time.time() - os.path.getmtime(old) > 6 * 3600: shutil.rmtree(old, ignore_errors=True)
+            except OSError: pass
         return True, exe, ' '.join(cmd)
 
 def driver_path(exe):
